@@ -890,7 +890,8 @@ def rule_C1(ctx, prog, label, only=None, rule='C1'):
                             e.get('dest', V.dest_names(st)[0]) in V.dest_names(st) and exc_hits[i] < e.get('count', 1):
                         side = e.get('requires')
                         if side and not check_side_condition(V, f, fs, side):
-                            why = 'exception side condition failed: %s' % side
+                            why = 'the side condition of its frozen exception no longer holds (%s): %s' % (side.get('kind'), e['reason'])
+                            exc_hits[i] += 1      # the site still exists: a violation, not a stale table
                             break
                         exc_hits[i] += 1
                         ok, why = True, 'frozen exception: ' + e['reason']
